@@ -70,6 +70,9 @@ SYSTEMS = {
     "C": ([("W", [6, 2]), ("W", [5, 3]), ("F", 2), ("R", 2)], "walk"),
     "D": ([("W", [5, 3, 4]), ("F", 2), ("M",), ("R", 2), ("C",)], "walk"),
     "E": ([("W", [5, 3, 4, 2]), ("F", 4), ("M",), ("R", 1), ("R", 1)], "walk"),
+    # aggregate readers (kind A: count(v) on the pre-aggregation path; the model's count = distinct batches of the view)
+    "G": ([("W", [5, 3]), ("F", 2), ("A", 1)], "enum"),
+    "H": ([("W", [5, 3, 4]), ("F", 3), ("M",), ("A", 2), ("R", 1)], "walk"),
 }
 # targeted families (always run completely): (1) every interleaving of the 4 flush steps and the 3 steps of an
 # out-of-order merge after "5 flushed in order, 3 flushed out of order, 4 written" (the flush carries an out-of-order
@@ -82,6 +85,7 @@ BG = {"sys": [("W", [5, 3]), ("B", 1), ("F", 1), ("R", 1)],
       "scheds": [[0, 0, 1, -3, 0, 0, 1, 1, 1, 2, 2, 2, 2, 3, 3, 3, 3, 3],
                  [0, 0, 1, 1, -3, 1, 1, 0, 0, 2, 2, 2, 2, 3, 3, 3, 3, 3],
                  [0, 0, 1, 1, 1, -3, 0, 0, 3, 3, 3, 3, 3, 1, 2, 2, 2, 2]]}
+MFA = {"sys": [("W", [5, 3, 4]), ("F", 3), ("M",), ("A", 1)]}   # family MF again with an aggregate reader
 WITNESS = {"sys": [("W", [5, 3, 4]), ("F", 3), ("M",), ("R", 1)],
            "sched": [0, 0, 1, 1, 1, 1, 0, 0, 1, 1, 1, 1, 0, 0, 1, 1, 2, 2, 2, 1, 1, 3, 3, 3, 3, 3]}
 
@@ -89,7 +93,7 @@ WITNESS = {"sys": [("W", [5, 3, 4]), ("F", 3), ("M",), ("R", 1)],
 def coq_spec(a):
     if a[0] == "W":
         return "SW [%s]" % "; ".join(str(b) for b in a[1])
-    if a[0] == "R":
+    if a[0] in ("R", "A"):      # an aggregate reader takes the same steps as a row reader
         return "SR %d" % a[1]
     if a[0] in ("F", "B"):      # the background snapshot is one more flusher of the model
         return "SF %d" % a[1]
@@ -103,7 +107,7 @@ def coq_spec(a):
 def json_spec(a):
     if a[0] == "W":
         return {"k": "W", "bs": a[1]}
-    if a[0] in ("R", "F", "B"):
+    if a[0] in ("R", "A", "F", "B"):
         return {"k": a[0], "n": a[1]}
     return {"k": a[0]}
 
@@ -172,12 +176,15 @@ def truncate_after_close(specs, sched):
 
 def sched_oracle(specs, sched, results):
     """DIRECT ORACLE on a forced schedule: every batch whose write call returned before a query's first step is in
-    that query's result (queries that start before the close).  Returns list of (reader, query index, missing)."""
+    that query's result (queries that start before the close); an aggregate reader's count(v) is at least the number
+    of those batches and at most the number of batches written before its last step (each (series, time) at most once).
+    Returns list of (reader, query index, what)."""
     cnt = {}
     acked = []          # batches whose WriteRows returned, in schedule order
     closing = False
     fails = []
     qstart = {}         # (reader, qno) -> acked snapshot
+    qend = {}
     for i in sched:
         if i < 0:
             continue
@@ -188,15 +195,25 @@ def sched_oracle(specs, sched, results):
             acked.append(specs[i][1][k // 2])
         elif kind == "C":
             closing = True
-        elif kind == "R" and k % 5 == 0 and not closing:
+        elif kind in ("R", "A") and k % 5 == 0 and not closing:
             qstart[(i, k // 5)] = list(acked)
+        elif kind in ("R", "A") and k % 5 == 4 and (i, k // 5) in qstart:
+            qend[(i, k // 5)] = list(acked)
     for (r, q), need in sorted(qstart.items()):
         res = results.get(str(r), [])
         if q >= len(res):
             continue
+        if specs[r][0] == "A":
+            c = (res[q] or [0])[0]
+            if c < len(set(need)):
+                fails.append((r, q, "count(v) = %d although %d batches %s were acknowledged before the query started" % (c, len(set(need)), sorted(set(need)))))
+            elif (r, q) in qend and not closing and c > len(set(qend[(r, q)])):
+                fails.append((r, q, "count(v) = %d although only %d batches %s had been written when the query ended: some (series, time) is counted more than once"
+                              % (c, len(set(qend[(r, q)])), sorted(set(qend[(r, q)])))))
+            continue
         miss = [b for b in need if b not in res[q]]
         if miss:
-            fails.append((r, q, miss))
+            fails.append((r, q, "misses acknowledged batch(es) %s" % miss))
     return fails
 
 
@@ -313,6 +330,8 @@ def gen_schedules(ck, n_enum, n_walk, rng):
         ck.broken.append("family MF (flush x merge interleavings) was not enumerated: %d schedules" % len(mf))
     for s in mf:
         cases.append({"sys": "MF", "specs": MF["sys"], "sched": s + MF["tail"], "tag": "MF"})
+    for s in mf:
+        cases.append({"sys": "MFA", "specs": MFA["sys"], "sched": s + MF["tail"], "tag": "MFA"})
     m = re.search(r"P_BG\s*=\s*\[(.*?)\]\s*:\s*list", out, re.S)
     if not m or "false" in m.group(1) or "true" not in m.group(1):
         ck.broken.append("family BG: the model does not say 'disabled' at a negative probe: %s" % (m.group(1) if m else out[-300:]))
@@ -334,10 +353,12 @@ def eval_cases(ck, cases, variant):
             sched = no_probes(c["sched"]) if variant == "current" else strip_for_repaired(specs, c["sched"])
             sp = "[" + "; ".join(coq_spec(a) for a in specs) + "]"
             obs = "[" + "; ".join("(%s, [%s])" % (r, "; ".join(coq_nats(q) for q in qs))
-                                   for r, qs in sorted(c["obs"].items(), key=lambda x: int(x[0]))) + "]"
-            items.append("(%s, %s, (%s : list (nat * list (list nat))))" % (sp, coq_nats(sched), obs))
+                                   for r, qs in sorted(c["obs"].items(), key=lambda x: int(x[0])) if specs[int(r)][0] == "R") + "]"
+            cobs = "[" + "; ".join("(%s, %s)" % (r, coq_nats([(q or [0])[0] for q in qs]))
+                                    for r, qs in sorted(c["obs"].items(), key=lambda x: int(x[0])) if specs[int(r)][0] == "A") + "]"
+            items.append("(%s, %s, (%s : list (nat * list (list nat))), (%s : list (nat * list nat)))" % (sp, coq_nats(sched), obs, cobs))
         txt = ("From Coq Require Import List Arith.\nFrom OG Require Import C04.Model C04.Corr.\nImport ListNotations.\n"
-               "Definition cases : list case := [\n%s\n].\nDefinition M := Eval vm_compute in mismatches %s cases.\nPrint M.\n"
+               "Definition cases : list case_a := [\n%s\n].\nDefinition M := Eval vm_compute in mismatches_a %s cases.\nPrint M.\n"
                % (";\n".join(items), "current" if variant == "current" else "correct"))
         files.append(("cases_%s_%d" % (variant, i // shard), txt))
     res = ck.coq_eval_many(files, timeout=600)
@@ -597,7 +618,7 @@ def main(ck):
             if fn.endswith(".case"):
                 c = json.load(open(os.path.join(corp, fn)))
                 cases.append({"sys": "corpus", "specs": [tuple(a) for a in c["specs"]], "sched": c["sched"], "tag": "corpus:" + fn})
-        cases += gen_schedules(ck, 300 if thorough else 60, 220 if thorough else 24, rng)
+        cases += gen_schedules(ck, 300 if thorough else 40, 220 if thorough else 20, rng)
         ck.log("forced schedules:", len(cases))
         outs = run_sched_cases(ck, bin_sched, cases)
         good = []
@@ -612,7 +633,7 @@ def main(ck):
                 if a >= 0:
                     cnt[a] = cnt.get(a, 0) + 1
             for a, sp in enumerate(c["specs"]):
-                if sp[0] == "R":
+                if sp[0] in ("R", "A"):
                     nq[str(a)] = cnt.get(a, 0) // 5
             if o.get("probe_fail"):
                 ck.broken.append("forced schedule %d (%s): %s" % (i, c["tag"], o["probe_fail"]))
@@ -647,7 +668,7 @@ def main(ck):
         for i in good:
             c = cases[i]
             kinds = {c["specs"][a][0] for a in c["sched"] if a >= 0}
-            if {"W", "R", "F"} <= kinds:
+            if {"W", "F"} <= kinds and kinds & {"R", "A"}:
                 nontriv.add((c["tag"], tuple(c["sched"])))
             hist[c["tag"].split(":")[0]] = hist.get(c["tag"].split(":")[0], 0) + 1
         ck.cov["distinct_nontrivial"] = len(nontriv)
@@ -663,7 +684,7 @@ def main(ck):
             oracle_failed = True
             if len(ck.violations) >= 3:
                 continue
-            what = "forced schedule %s: query %d of reader %d misses acknowledged batch(es) %s" % (c["tag"], fails[0][1], fails[0][0], fails[0][2])
+            what = "forced schedule %s: query %d of reader %d %s" % (c["tag"], fails[0][1], fails[0][0], fails[0][2])
             if in_orphan_signature(c["specs"], c["sched"]) and ck.match_finding(ORPHAN):
                 ck.known_finding(ORPHAN, "a flush that fetched the out-of-order list object before an out-of-order merge deleted it "
                                          "appends its file to the orphaned object; queries miss acknowledged points (%s)" % what)
@@ -788,7 +809,7 @@ def replay(ck):
             cnt = {}
             for a in c["sched"]:
                 cnt[a] = cnt.get(a, 0) + 1
-            c["obs"] = {str(a): [q or [] for q in (o["results"].get(str(a)) or [])][:cnt.get(a, 0) // 5] for a, sp in enumerate(c["specs"]) if sp[0] == "R"}
+            c["obs"] = {str(a): [q or [] for q in (o["results"].get(str(a)) or [])][:cnt.get(a, 0) // 5] for a, sp in enumerate(c["specs"]) if sp[0] in ("R", "A")}
             cur = eval_cases(ck, [c], "current")
             rep = eval_cases(ck, [c], "repaired")
             ck.log("model `current` agrees:", 0 not in cur, " model `repaired` agrees:", 0 not in rep)
@@ -796,7 +817,7 @@ def replay(ck):
             ck.log("direct oracle:", fails or "holds")
             if fails:
                 if in_orphan_signature(c["specs"], c["sched"]) and ck.match_finding(ORPHAN):
-                    ck.known_finding(ORPHAN, "replayed case misses acknowledged batches %s" % fails[0][2])
+                    ck.known_finding(ORPHAN, "replayed case: %s" % fails[0][2])
                 else:
                     ck.violation({"kind": "direct-oracle", "what": "replayed case: %s" % fails, "case": rp["case"]})
     else:
